@@ -30,7 +30,8 @@ PROPS = {
     "C14": {
         "level": "proof",
         "lean_modules": ["Rain.Props.C14"],
-        "components": ["c14"],
+        "components": ["c14", "c13"],
+        "sig_prefixes": ["c14:"],
         "title": "Filters never hide a key that is present",
         "technique": "Lean 4 theorems (no false negative for every hash/key set/bits-per-key; filter-block index agreement for every monotone block layout; serialize/parse round trip) + differential test of BloomFilterPolicy and FilterBlockBuilder/Reader against the compiled model",
         "level_text": "Machine-checked proof over the Lean model of filter_policy.rs / filter_block_builder.rs / filter_block.rs for all key sets, hashes, bits-per-key and block layouts; the model is tied to the code on every run by byte-exact comparison of created filters, filter blocks and match answers on generated inputs, and the no-false-negative oracle is evaluated on the implementation itself.",
@@ -44,6 +45,24 @@ PROPS = {
             "total filter-block size below 2^32 bytes",
         ],
     },
+}
+
+PROPS["C13"] = {
+    "level": "proof",
+    "lean_modules": ["Rain.Props.C13"],
+    "components": ["c13"],
+    "sig_prefixes": ["c13:"],
+    "title": "Table files give back exactly what was put in",
+    "technique": "Lean 4 theorems (block round trip, separator/successor bounds, Table::get = first-entry-at-or-after specification and TwoLevelIterator = flat cursor for EVERY partition into blocks and every cursor program) + differential test of BlockBuilder/BlockReader/TableBuilder/Table/TwoLevelIterator against the compiled model and the specification",
+    "level_text": "Machine-checked proof over the Lean model of block_builder.rs / block.rs / table_builder.rs / table.rs / key.rs / bytes.rs for every sorted entry list, every partition into non-empty blocks (hence every max_block_size), every lookup and every cursor program; tied to the code on every run by byte-exact block comparison, structural table dumps (partition, index keys) and answer-for-answer comparison of lookups and cursor programs on tables built by the real TableBuilder; the specification itself (first entry at or after the target decides: value / deletion / not in this file) is evaluated on the implementation.",
+    "design_ref": "5 (C13)",
+    "trusted_base": COMMON_TB + [
+        "snap compression and the CRC trailer of table blocks are below the model (exercised: tables are written and read back through the real code)",
+    ],
+    "assumptions": [
+        "entries handed to TableBuilder are strictly sorted by internal key (asserted by the builder) and non-empty (an empty block does not parse: C13_block_roundtrip needs kvs != [], and the builder never emits an empty block)",
+        "block and table sizes below 2^32 bytes; sequence numbers are u64",
+    ],
 }
 
 DB_TB = COMMON_TB + [
@@ -71,4 +90,4 @@ _db("C11", "Exactly the needed files are on disk", ["c11:"],
     "Lean 4 proof + directory listing vs state dump", "under construction", [], [])
 
 # properties whose check is registered in MANIFEST.json
-CLAIMED = ["C12", "C14"]
+CLAIMED = ["C12", "C13", "C14"]
